@@ -638,11 +638,22 @@ struct W1
     // ---- C02: storage invariants
     Probe<SV, AT>::storage (v, w.arena, faulted, "A");
 
+    // A failed call of an operation with the strong guarantee must also leak nothing (C05): on such
+    // edges the leak oracles speak for C05 as well.
+    bool strong_ctx = false;
+    if (faulted && cx.thrown == 1)
+    {
+      bool vec_ = true;
+      bool eligible = fault_kind_is_ctor_or_alloc (cx.thrown_kind)
+                   && ! (cx.thrown_kind == FK_ELEM_MOVE_CTOR && ! ET::copyable);
+      strong_ctx = eligible && op_is_strong (op, pre.size, vec_);
+    }
+
     // ---- C03: element lifetimes
     if (hooked)
     {
       Registry& rg = registry ();
-      const char *p3 = faulted ? "C03,C06" : "C03";
+      const char *p3 = strong_ctx ? "C03,C06,C05" : (faulted ? "C03,C06" : "C03");
       for (std::size_t k = 0; k < rg.errors.size (); ++k)
         report (p3, "life.misuse", std::string (rg.errors[k].c_str ()));
       std::size_t live = rg.live.size ();
@@ -664,7 +675,7 @@ struct W1
     {
       Ledger& lg = ledger ();
       lg.check_zones ();
-      const char *p4 = faulted ? "C04,C06" : "C04";
+      const char *p4 = strong_ctx ? "C04,C06,C05" : (faulted ? "C04,C06" : "C04");
       for (std::size_t k = 0; k < lg.errors.size (); ++k)
       {
         std::string msg = lg.errors[k].c_str ();
